@@ -198,6 +198,13 @@ func genCase(r *hx.Rand, layer string, opt genOpt, thorough bool) In {
 	var ops []Op
 	if r.Chance(17, 20) {
 		ops = append(ops, Op{Op: r.Pick([]string{"set", "set", "add"}), K: r.Pick(ctKeys), V: opt.ct(r)})
+	} else if r.Chance(1, 2) && !favour {
+		// the type suppressed on purpose: the key present with no value (nobody sniffs), or with the empty value
+		if r.Chance(2, 3) {
+			ops = append(ops, Op{Op: "nil", K: r.Pick(ctKeys)})
+		} else {
+			ops = append(ops, Op{Op: "set", K: r.Pick(ctKeys), V: ""})
+		}
 	}
 	for k := r.Intn(3); k > 0; k-- {
 		i := r.Intn(len(hdrNames))
@@ -327,7 +334,7 @@ func present(ops []Op, key string) bool {
 			continue
 		}
 		switch o.Op {
-		case "set", "add":
+		case "set", "add", "nil":
 			p = true
 		case "del":
 			p = false
@@ -407,6 +414,11 @@ func init() {
 		srv(get("gzip", "-", w("<ht"), w("ml><body></body></html>")), "GET"),
 		srv(get("gzip", "-", w(""), w("\x89PNG\r\n\x1a\n")), "GET"),
 		srv(get("gzip", "-", Op{Op: "set", K: "Content-Encoding", V: "br"}, w("abc")), "GET"),
+		// the Content-Type suppressed: key present, no value — nobody sniffs; the empty type does not match
+		get("gzip", "-", Op{Op: "nil", K: "Content-Type"}, w("{\"a\": 1, \"b\": [1,2,3]}")),
+		srv(get("gzip", "-", Op{Op: "nil", K: "content-type"}, w("<html><body>hello</body></html>")), "GET"),
+		get("gzip", "text/html", Op{Op: "nil", K: "Content-Type"}, wh(200), w("<html>")),
+		get("gzip", "-", Op{Op: "nil", K: "Content-Encoding"}, Op{Op: "set", K: "Content-Type", V: "text/html"}, w("<html>")),
 	}
 	main := func(opt genOpt, thorough bool) func(r *hx.Rand, i int) interface{} {
 		return func(r *hx.Rand, i int) interface{} {
